@@ -186,7 +186,7 @@ int main(int argc, char **argv) {
     // Every layout scenario runs in a forked child with an alarm: a call into the library that
     // does not return (seen: vpsc::IncSolver::satisfy looping inside makeFeasible) must not stall
     // the stream. The parent closes the open case with a `hang` line.
-    const unsigned limit = thorough ? 30 : 10;
+    const unsigned limit = thorough ? 15 : 8;
     for (long i = 0; i < nlay; ++i, k += 2) {
         if (!(a.want(k) || a.want(k + 1))) continue;
         fflush(stdout);
